@@ -137,6 +137,11 @@ func (tg *txnGen) txn(maxOps int) []TOp {
 			}
 		}
 	}
+	if g.Chance(0.12) {
+		if ops := tg.twice(); len(ops) > 0 {
+			return ops
+		}
+	}
 	n := 1 + g.Intn(maxOps)
 	pending := map[string][]string{}
 	var ops []TOp
@@ -232,6 +237,48 @@ func (tg *txnGen) txn(maxOps int) []TOp {
 // swap generates a transaction fragment in which an indexed value moves:
 // two rows swap their indexed columns, or a row is deleted and another
 // inserted / updated with its value.
+// twice changes one set or map column of an existing row with two (or three) separate operations of one
+// transaction: the accumulated update must be the net difference whatever the column's bounds.
+func (tg *txnGen) twice() []TOp {
+	g := tg.g
+	for _, ti := range g.R.Perm(len(tg.sc.Tables)) {
+		t := &tg.sc.Tables[ti]
+		us := tg.uuidsOf(t.Name)
+		var cols []val.Col
+		for _, c := range t.Cols {
+			if (c.K == 's' || c.K == 'm') && c.RefTable == "" && c.VRefTable == "" && !c.Immutable {
+				cols = append(cols, c)
+			}
+		}
+		if len(us) == 0 || len(cols) == 0 {
+			continue
+		}
+		u := us[g.Intn(len(us))]
+		c := cols[g.Intn(len(cols))]
+		byU := []Cond{{Col: "_uuid", Fn: "==", Arg: val.VA(val.Uuid(u))}}
+		var ops []TOp
+		for k := 2 + g.Intn(2); k > 0; k-- {
+			v := tg.value(c, nil)
+			switch g.Intn(3) {
+			case 0:
+				ops = append(ops, TOp{Kind: "update", Table: t.Name, Where: byU, Row: map[string]val.Val{c.Name: v}})
+			case 1:
+				ops = append(ops, TOp{Kind: "mutate", Table: t.Name, Where: byU, Muts: []Mut{{Col: c.Name, Mutator: "insert", Arg: v}}})
+			default:
+				cur := tg.state[t.Name][u][c.Name]
+				if c.K == 's' && len(cur.Set) > 0 {
+					v = val.VS(cur.Set[g.Intn(len(cur.Set))])
+				} else if c.K == 'm' && len(cur.Map) > 0 {
+					v = val.VM(cur.Map[g.Intn(len(cur.Map))])
+				}
+				ops = append(ops, TOp{Kind: "mutate", Table: t.Name, Where: byU, Muts: []Mut{{Col: c.Name, Mutator: "delete", Arg: v}}})
+			}
+		}
+		return ops
+	}
+	return nil
+}
+
 func (tg *txnGen) swap() []TOp {
 	g := tg.g
 	for _, ti := range g.R.Perm(len(tg.sc.Tables)) {
